@@ -26,9 +26,6 @@ def wsum : List α → List α → α
 theorem phase_encZero (a e s : α) : phase (encZero a e s) s = e := by
   simp only [phase, encZero]; ring
 
-theorem phase_encZeroNoP (ρ : α → α) (a e s : α) : phase (encZeroNoP ρ a e s) s = ρ e := by
-  simp only [phase, encZeroNoP]; ring
-
 theorem phase_addMsg0 (z : α × α) (m s : α) : phase (addMsg0 z m) s = phase z s + m := by
   simp only [phase, addMsg0]; ring
 
@@ -37,7 +34,7 @@ theorem phase_addMsg1 (z : α × α) (m s : α) : phase (addMsg1 z m) s = phase 
 
 /-! ### the rows of an RGSW ciphertext -/
 
-/-- the list of row errors `phase (ez a_k e_k s) s` (`e_k` with `P`, `ρ e_k` without) -/
+/-- the list of row errors `phase (ez a_k e_k s) s = e_k` -/
 def rowNoise (ez : α → α → α → α × α) (s : α) (smp : List (α × α)) : List α :=
   smp.map fun ae => phase (ez ae.1 ae.2 s) s
 
@@ -154,10 +151,6 @@ theorem encZero_add (s a e a' e' : α) :
     encZero (a + a') (e + e') s = padd (encZero a e s) (encZero a' e' s) := by
   simp only [encZero, padd, Prod.mk.injEq]; constructor <;> first | trivial | ring
 
-theorem encZeroNoP_add (ρ : α → α) (hρ : ∀ x y, ρ (x + y) = ρ x + ρ y) (s a e a' e' : α) :
-    encZeroNoP ρ (a + a') (e + e') s = padd (encZeroNoP ρ a e s) (encZeroNoP ρ a' e' s) := by
-  simp only [encZeroNoP, padd, hρ, Prod.mk.injEq]; constructor <;> first | trivial | ring
-
 theorem rows0_mul (ez : α → α → α → α × α) (s g x : α)
     (hez : ∀ a e, ez (a * x) (e * x) s = pscale x (ez a e s)) :
     ∀ (pgs : List α) (A : List (α × α)),
@@ -192,10 +185,6 @@ theorem rows1_mul (ez : α → α → α → α × α) (s g x : α)
 
 theorem encZero_mul (s x a e : α) : encZero (a * x) (e * x) s = pscale x (encZero a e s) := by
   simp only [encZero, pscale, Prod.mk.injEq]; constructor <;> first | trivial | ring
-
-theorem encZeroNoP_mul (ρ : α → α) (hρ : ∀ e x, ρ (e * x) = ρ e * x) (s x a e : α) :
-    encZeroNoP ρ (a * x) (e * x) s = pscale x (encZeroNoP ρ a e s) := by
-  simp only [encZeroNoP, pscale, hρ, Prod.mk.injEq]; constructor <;> first | trivial | ring
 
 theorem rows0_addPlain (ez : α → α → α → α × α) (s g m : α) :
     ∀ (pgs : List α) (A : List (α × α)), pgs.length = A.length →
